@@ -47,29 +47,31 @@ OnKernel(e) ==
 \* ---- Draw (posterior path) ----
 \* with KF_CustomKSlot the K slot has variance 0: the precision is +infinity there (<<1, 0>>) and the mean is undefined
 DrawMatches(e, dev) == e.Ainv = Ainv(g, dev, TRUE) /\ ("KF_CustomKSlot" \in dev \/ e.rhs = Rhs(g, dev, TRUE))
-DrawKF(e) == IF \E S \in DevSets : Name(S) # "unnamed" /\ DrawMatches(e, S)
+\* through the cache-file path only cov = inv(Ainv) is observable; with KF_CustomKSlot the precision is infinite in the K slot
+\* and the covariance handed to the generator is not finite
+DrawKF(e) == IF e.tag # "" /\ ~e.covfinite /\ g.kkind = "custom" /\ g.noff > 0 THEN "KF_CustomKSlot" ELSE IF \E S \in DevSets : Name(S) # "unnamed" /\ DrawMatches(e, S)
              THEN Name(CHOOSE S \in DevSets : Name(S) # "unnamed" /\ DrawMatches(e, S)) ELSE ""
 OnDraw(e) ==
-  IF e.ncalls # 1 \/ e.size # e.nlinear THEN <<e.fam \o ".OneDrawCallPerSampleWithNLinearDraws", "">>
+  IF e.ncalls # 1 \/ e.size # e.nlinear THEN <<e.fam \o "." \o e.tag \o "OneDrawCallPerSampleWithNLinearDraws", "">>
   ELSE IF e.Ainv # Ainv(g, {}, TRUE) THEN
-       (IF g.s2 # 0 /\ e.Ainv = Ainv([g EXCEPT !.s2 = 0], {}, TRUE) THEN <<e.fam \o ".JitterInThePosterior", "">>
-        ELSE <<e.fam \o ".PosteriorPrecisionSameModelAsMarginal", DrawKF(e)>>)
-  ELSE IF e.rhs # Rhs(g, {}, TRUE) THEN <<e.fam \o ".PosteriorMean", DrawKF(e)>>
-  ELSE IF ~e.covok THEN <<e.fam \o ".CovarianceIsInverseOfPrecision", "">>
-  ELSE IF ~e.thetasame THEN <<e.fam \o ".NonlinearParametersCopiedUnchanged", "">>
-  ELSE IF e.outx # e.sent THEN <<e.fam \o ".DrawEmittedInItsSlotAndUnit", "">>
+       (IF g.s2 # 0 /\ e.Ainv = Ainv([g EXCEPT !.s2 = 0], {}, TRUE) THEN <<e.fam \o "." \o e.tag \o "JitterInThePosterior", "">>
+        ELSE <<e.fam \o "." \o e.tag \o "PosteriorPrecisionSameModelAsMarginal", DrawKF(e)>>)
+  ELSE IF e.rhs # Rhs(g, {}, TRUE) THEN <<e.fam \o "." \o e.tag \o "PosteriorMean", DrawKF(e)>>
+  ELSE IF ~e.covok THEN <<e.fam \o "." \o e.tag \o "CovarianceIsInverseOfPrecision", "">>
+  ELSE IF ~e.thetasame THEN <<e.fam \o "." \o e.tag \o "NonlinearParametersCopiedUnchanged", "">>
+  ELSE IF e.outx # e.sent THEN <<e.fam \o "." \o e.tag \o "DrawEmittedInItsSlotAndUnit", "">>
   ELSE <<"", "">>
 
 \* ---- Orbit (reconstructed orbit of a row) ----
 OnOrbit(e) ==
-  IF ~e.trefsame THEN <<e.fam \o ".SamplesCarryTheDataReferenceEpoch", "">>
-  ELSE IF e.curve # Curve(g, e.x) THEN <<e.fam \o ".RowDenotesTheSamplersCurve", "">>
-  ELSE IF ~e.lnlikeok THEN <<e.fam \o ".UnmarginalizedLikelihoodUsesJitteredVariance", "">>
+  IF ~e.trefsame THEN <<e.fam \o "." \o e.tag \o "SamplesCarryTheDataReferenceEpoch", "">>
+  ELSE IF e.curve # Curve(g, e.x) THEN <<e.fam \o "." \o e.tag \o "RowDenotesTheSamplersCurve", "">>
+  ELSE IF ~e.lnlikeok THEN <<e.fam \o "." \o e.tag \o "UnmarginalizedLikelihoodUsesJitteredVariance", "">>
   \* the identity is a composite of the kernel's marginal state (Kernel event), its posterior state (Draw event), the curve
   \* and the unmarginalised likelihood (checked above, independently of the kernel).  When the kernel's marginal or
   \* posterior state was classified as a known deviation earlier in this trace, a failing identity is that deviation
   \* seen through the identity.
-  ELSE IF ~e.bayesok THEN <<e.fam \o ".BayesIdentity", IF dkf # "" THEN dkf ELSE kkf>>
+  ELSE IF ~e.bayesok THEN <<e.fam \o "." \o e.tag \o "BayesIdentity", IF dkf # "" THEN dkf ELSE kkf>>
   ELSE <<"", "">>
 
 \* ---- unit twins of one physical problem through rejection_sample with equal seeds ----
